@@ -4,9 +4,9 @@ import _sigcheck as sc
 PRIORITY = ["single:ethereum-type-key", "pubkey-encoding", "pubkey-push", "multi:unsorted-keys", "multi:n-pushed-as-bytes"]
 
 
-def primary_class(tx, ktypes):
+def primary_class(tx, ktypes, first=()):
     cls = sc.enc_classes(tx, ktypes)
-    for p in PRIORITY:
+    for p in list(first) + PRIORITY:
         for c in cls:
             if p in c:
                 return c
@@ -27,21 +27,33 @@ def run(ctx):
     cfgs = ["SigTx_C17.cfg"]
     res = sc.parallel(
         lambda: ctx.go_test_bin("core/validation", harness="b_sig_validation"),
-        lambda: sc.run_tlc_rows(ctx, "SigTx_MC", "SigTx_C17.cfg"))
+        lambda: sc.run_tlc_rows(ctx, "SigTx_MC", "SigTx_C17.cfg"),
+        # model self-test: were the validator to derive the multi-signature account from the number of signatures
+        # supplied, the input class "surplus signatures" must refute SignersAreScriptAccounts
+        lambda: ctx.tlc("SigTx_MC", cfg="SigTx_C17_selftest.cfg", workers=2, timeout=900))
     d, binary = res[1][0], res[0]
+    st = res[2]
+    if st.status != "violation" or st.violated != "SignersAreScriptAccounts":
+        ctx.infra("SigTx self-test: SigTx_C17_selftest.cfg (AddrBySigCount on) should violate SignersAreScriptAccounts, got status=%s violated=%s"
+                  % (st.status, st.violated))
+    else:
+        ctx.log("TLC SigTx_C17_selftest.cfg (AddrBySigCount on): counterexample to SignersAreScriptAccounts found, as expected")
     rows_of = {"SigTx_C17.cfg": res[1]}
-    nexec = nacc = ndiff = cand = 0
+    nexec = nacc = ndiff = cand = nsurplus = 0
     per = {}
     classes = {}
     if binary and all(rows_of[c][0] for c in cfgs):
         for cfg, kt in binds:
             V, X, M = sc.split_tx_rows(rows_of[cfg][1])
-            if not X or not all(x["same"] for x in X) or not any(not x["canon"] for x in X):
+            if not X or not all(x["same"] for x in X) or not any(not x["canon"] for x in X) or not all(x["sacc"] for x in X) \
+                    or not any(surplus(x["tx"]) for x in X):
                 ctx.infra("vacuous model run %s: %d ExecFresh rows" % (cfg, len(X)))
                 continue
             xmap = {vf_canon(x["tx"]): x for x in X}
             cand = max(cand, sum(1 for x in X if not x["same"]))
-            obs, _ = sc.run_sigtx(ctx, binary, kt, [v["tx"] for v in V], [], "c17-" + "-".join(kt))
+            # every transaction carries the model's signer accounts (facts.accts) where the model accepts it
+            txs = [dict(v["tx"], accts=xmap[vf_canon(v["tx"])]["accts"]) if vf_canon(v["tx"]) in xmap else v["tx"] for v in V]
+            obs, _ = sc.run_sigtx(ctx, binary, kt, txs, [], "c17-" + "-".join(kt))
             if obs is None:
                 continue
             drift = []
@@ -64,23 +76,34 @@ def run(ctx):
                 if x is None:
                     ctx.infra("no ExecFresh row for accepted %s" % sc.short_tx(tx))
                     continue
-                real_same = sorted(set(o["raw"])) == sorted(set(o["signed"]))
+                signed, fresh, model = sorted(set(o["signed"])), sorted(set(o["raw"])), sorted(set(o["model"]))
+                real_same = fresh == signed
+                nsurplus += surplus(tx)
                 # CheckWitness is the contract-visible face of the same sets
                 cw_same = all(o["cwFresh"]) and all(o["cwVal"])
                 if real_same != cw_same:
                     ctx.infra("CheckWitness disagrees with GetSignatureAddresses on %s" % sc.short_tx(tx))
                 if not real_same:
                     diff += 1
-                    c = primary_class(tx, kt)
+                    # the model's signer accounts tell which of the two derivations left the script's accounts
+                    if signed != model and fresh == model:
+                        c = primary_class(tx, kt, first=["multi:surplus-signatures"])
+                        key = "VerifyTransaction:validated-signers-differ-from-script-accounts:%s" % c
+                    else:
+                        c = primary_class(tx, kt)
+                        key = "GetSignatureAddresses:differs-from-validated-signers:%s" % c
                     classes[c] = classes.get(c, 0) + 1
-                    ctx.violation("GetSignatureAddresses:differs-from-validated-signers:%s" % c,
+                    ctx.violation(key,
                                   {"tx": sc.short_tx(tx), "ktypes": kt, "validated": o["signed"], "fresh_decode": o["raw"],
-                                   "all_noncanonical_features": sc.enc_classes(tx, kt)},
-                                  {"ktypes": kt, "tx": tx, "model_same": x["same"]})
+                                   "model_signer_accounts": o["model"], "all_noncanonical_features": sc.enc_classes(tx, kt)},
+                                  {"ktypes": kt, "tx": dict(tx, accts=x["accts"]), "model_same": x["same"]})
                     if x["same"]:
                         drift.append((sc.short_tx(tx), "signer sets differ on the real code but not in the model"))
                 elif not x["same"]:
                     drift.append((sc.short_tx(tx), "signer sets differ in the model (RawScriptFallback) but not on the real code"))
+                elif signed != model:
+                    # both nodes agree with each other (C17 holds) but not with the accounts the scripts stand for
+                    drift.append((sc.short_tx(tx), "validated = fresh-decode signers %s differ from the model's signer accounts %s" % (signed, model)))
             if drift:
                 ctx.infra("MODEL-DRIFT (%s %s): %d rows, e.g. %s" % (cfg, kt, len(drift), drift[:3]))
             nexec += len(obs); nacc += acc; ndiff += diff
@@ -91,10 +114,16 @@ def run(ctx):
     ctx.finish("model_checking", {
         "states": ctx.stats["states"], "transitions": ctx.stats["transitions"],
         "traces_validated_against_impl": nexec, "accepted_by_real_code": nacc, "signer_sets_differ_on_real_code": ndiff,
+        "accepted_with_surplus_signatures": nsurplus, "model_self_test": "SigTx_C17_selftest.cfg (AddrBySigCount on) refutes SignersAreScriptAccounts",
         "tlc_candidates_against_property": cand, "classes_of_difference": classes, "per_key_types": per,
         "exhaustive": True, "deviation_switches": {"MaskByPosition": False, "RawScriptFallback": False},
     }, ["ideal cryptography", "fresh decode = types.TransactionFromRawBytes of the same bytes on a node that did not run VerifyTransaction (block sync path); validator = the object VerifyTransaction was called on",
-        "public-key encodings enumerated: canonical, uncompressed, explicitly typed P-256, trailing byte; pushes PUSHBYTESn/PUSHDATA1/2/4; n as opcode or pushed bytes; every key order incl. duplicates"])
+        "public-key encodings enumerated: canonical, uncompressed, explicitly typed P-256, trailing byte; pushes PUSHBYTESn/PUSHDATA1/2/4; n as opcode or pushed bytes; every key order incl. duplicates",
+        "surplus signatures: m-of-n scripts (n = 2..3, every key order) carrying m < sn <= n + 1 honest signatures, alone and next to a single-key set that covers the payer; three signer sets compared: validator (SignedAddr), fresh decode (GetSignatureAddresses), the model's signer accounts realised with the builder"])
+
+
+def surplus(tx):
+    return any(s["form"] == "multi" and len(s["sigs"]) > s["m"] for s in tx["sets"])
 
 
 def vf_canon(x):
